@@ -108,6 +108,12 @@ def history(h: Harness, spec, rng):
                 st, v = guard("create_node", f"mutate[{kind},{d}]", lambda: rep.mutate(src, rng.choice(pool)))
             else:
                 st, v = guard("create_node", f"crossover[{kind},{d}]", lambda: rep.crossover(src, pool[0], pool[-1]))
+    # other grammars over the same classes come into being while this one is in use
+    from geneticengine.grammar.grammar import extract_grammar
+    guard("usable_grammar", "g.usable_grammar()", lambda: g.usable_grammar())
+    guard("extract_grammar", "extract_grammar(same classes, other depth mode)", lambda: extract_grammar(b.considered(), b.start, not spec.expansion))
+    if len(b.considered()) > 1:
+        guard("extract_grammar", "extract_grammar(subset of the productions)", lambda: extract_grammar(b.considered()[1:], b.start, spec.expansion))
     # linear representations
     shared = NativeRandomSource(seedv)
     d = mind + 1
